@@ -113,6 +113,12 @@ func runE2E(c e2eCase) (res e2eResult) {
 	cl := env.NewClient(func(cl *gortsplib.Client) {
 		cl.Host = spec.Authority()
 		cl.Protocol = &proto
+		switch c.Tunnel {
+		case "http":
+			cl.Tunnel = gortsplib.TunnelHTTP
+		case "ws":
+			cl.Tunnel = gortsplib.TunnelWebSocket
+		}
 	})
 	if err := cl.Start(); err != nil {
 		panic(fmt.Sprint("harness: client start: ", err))
@@ -310,6 +316,11 @@ func runE2E(c e2eCase) (res e2eResult) {
 		return fail("teardown", "no-session-close", "server session not closed after the client's TEARDOWN")
 	}
 
+	if c.Tunnel != "" {
+		// inside a tunnel the RTSP request lines are not visible on the wire (base64 in HTTP bodies, WebSocket
+		// frames): the handler-side oracle above is the whole oracle for these cases
+		return res
+	}
 	// wire: request lines
 	lines, shapes := requestLines()
 	res.Shapes = shapes
